@@ -366,7 +366,7 @@ func execPlans(scratch string, pi *propInfo, plans []*kernel.Plan, known []strin
 		wg.Add(1)
 		go func(w int, mine []int) {
 			defer wg.Done()
-			job := worker.Job{Engine: pi.Engine, Property: plans[0].Property, Mode: "plans", Known: known, Verbose: verbose}
+			job := worker.Job{Engine: plans[0].Engine, Property: plans[0].Property, Mode: "plans", Known: known, Verbose: verbose}
 			for _, i := range mine {
 				job.Plans = append(job.Plans, files[i])
 			}
@@ -614,35 +614,18 @@ type evidence struct {
 	Violations  int                    `json:"violations"`
 }
 
-func doCheck(prop, tier string) int {
-	pi := props[prop]
-	if pi == nil {
-		harnessFail("unknown property %s", prop)
-	}
-	start := time.Now()
-	seed := int64(envInt("VERIF_SEED", 1))
-	workers := envInt("VERIF_WORKERS", 16)
-	budget := pi.QuickS
-	if tier == "thorough" {
-		budget = pi.ThoroughS
-	}
-	budget = envInt("VERIF_BUDGET_S", budget)
-	maxRuns := envInt("VERIF_MAX_RUNS", 0)
-	kf := loadKnown()
-	var knownKeys []string
-	var myKnown []knownEntry
-	for _, k := range kf.Open {
-		if k.Property == prop {
-			knownKeys = append(knownKeys, k.key())
-			myKnown = append(myKnown, k)
-		}
-	}
-	scratch, err := os.MkdirTemp("", "orda-verif.")
-	if err != nil {
-		harnessFail("%v", err)
-	}
-	defer os.RemoveAll(scratch)
+// engineOut is what one engine's batch contributes to a check.
+type engineOut struct {
+	total    worker.Agg
+	hashes   map[uint64]bool
+	states   map[uint64]bool
+	samples  []interface{}
+	counts   map[string]int
+	vioLines []string
+	nviol    int
+}
 
+func runEngine(pi *propInfo, prop, tier string, seed int64, workers, budget, maxRuns int, scratch string, knownKeys []string, myKnown []knownEntry) *engineOut {
 	deadline := time.Now().Add(time.Duration(budget) * time.Second).UnixMilli()
 	results := make([]*batchResult, workers)
 	errs := make([]error, workers)
@@ -787,6 +770,89 @@ func doCheck(prop, tier string) int {
 		path := writeReplay(prop, f.seed, v, plan, out, orig)
 		vioLines = append(vioLines, fmt.Sprintf("VIOLATION property=%s replay=%s", prop, path))
 	}
+
+	return &engineOut{total: total, hashes: hashes, states: states, samples: samples, counts: counts, vioLines: vioLines, nviol: nviol}
+}
+
+func doCheck(prop, tier string) int {
+	pi := props[prop]
+	if pi == nil {
+		harnessFail("unknown property %s", prop)
+	}
+	start := time.Now()
+	seed := int64(envInt("VERIF_SEED", 1))
+	workers := envInt("VERIF_WORKERS", 16)
+	budget := pi.QuickS
+	if tier == "thorough" {
+		budget = pi.ThoroughS
+	}
+	budget = envInt("VERIF_BUDGET_S", budget)
+	maxRuns := envInt("VERIF_MAX_RUNS", 0)
+	kf := loadKnown()
+	var knownKeys []string
+	var myKnown []knownEntry
+	for _, k := range kf.Open {
+		if k.Property == prop {
+			knownKeys = append(knownKeys, k.key())
+			myKnown = append(myKnown, k)
+		}
+	}
+	scratch, err := os.MkdirTemp("", "orda-verif.")
+	if err != nil {
+		harnessFail("%v", err)
+	}
+	defer os.RemoveAll(scratch)
+
+	engines := []*propInfo{pi}
+	if pi.Also != nil {
+		engines = append(engines, pi.Also)
+	}
+	total := worker.Agg{Faults: map[string]int{}, Probes: map[string]int{}, Known: map[string]int{}}
+	hashes := map[uint64]bool{}
+	states := map[uint64]bool{}
+	counts := map[string]int{}
+	var samples []interface{}
+	var vioLines []string
+	nviol := 0
+	perEngine := map[string]interface{}{}
+	for ei, e := range engines {
+		b := budget
+		if len(engines) > 1 {
+			b = budget / len(engines)
+		}
+		sub := filepath.Join(scratch, fmt.Sprintf("e%d", ei))
+		_ = os.MkdirAll(sub, 0o755)
+		o := runEngine(e, prop, tier, seed, workers, b, maxRuns, sub, knownKeys, myKnown)
+		total.Runs += o.total.Runs
+		total.SimNanos += o.total.SimNanos
+		total.Steps += o.total.Steps
+		total.Inconcl += o.total.Inconcl
+		for k, v := range o.total.Faults {
+			total.Faults[k] += v
+		}
+		for k, v := range o.total.Probes {
+			total.Probes[k] += v
+		}
+		for k, v := range o.total.Known {
+			total.Known[k] += v
+		}
+		for h := range o.hashes {
+			hashes[h^uint64(ei)<<60] = true
+		}
+		for h := range o.states {
+			states[h] = true
+		}
+		for k, v := range o.counts {
+			counts[k] += v
+		}
+		if len(o.samples) > 2 && len(engines) > 1 {
+			o.samples = o.samples[:2]
+		}
+		samples = append(samples, o.samples...)
+		vioLines = append(vioLines, o.vioLines...)
+		nviol += o.nviol
+		perEngine[e.Engine] = map[string]interface{}{"runs": o.total.Runs, "distinct_nontrivial": len(o.hashes), "rule": e.Rule, "oracles": e.Oracles, "components": e.Components}
+	}
 	wall := time.Since(start).Seconds()
 	// evidence
 	faultsFired := map[string]int{}
@@ -813,6 +879,7 @@ func doCheck(prop, tier string) int {
 		"budget_s":               budget,
 		"batch_seed":             seed,
 		"oracles":                pi.Oracles,
+		"engines":                perEngine,
 	}
 	if len(samples) == 0 {
 		cov["samples"] = []interface{}{map[string]interface{}{"note": "no violation-free non-trivial run in this batch to sample"}}
@@ -822,6 +889,10 @@ func doCheck(prop, tier string) int {
 	eb, _ := json.MarshalIndent(ev, "", " ")
 	if err := os.WriteFile(filepath.Join(outDir, "evidence", prop+".json"), eb, 0o644); err != nil {
 		harnessFail("cannot write evidence: %v", err)
+	}
+	if len(engines) > 1 {
+		eb, _ := json.Marshal(perEngineBrief(perEngine))
+		fmt.Printf("%s engines: %s\n", prop, eb)
 	}
 	fmt.Printf("%s %s: %d runs (%d distinct non-trivial traces, %d state digests) in %.1fs; %d violation classes; faults fired %v\n",
 		prop, tier, total.Runs, len(hashes), len(states), wall, nviol, faultsFired)
@@ -865,3 +936,13 @@ func main() {
 }
 
 var _ = bytes.NewReader
+
+func perEngineBrief(m map[string]interface{}) map[string]interface{} {
+	out := map[string]interface{}{}
+	for k, v := range m {
+		if mm, ok := v.(map[string]interface{}); ok {
+			out[k] = map[string]interface{}{"runs": mm["runs"], "distinct_nontrivial": mm["distinct_nontrivial"]}
+		}
+	}
+	return out
+}
